@@ -286,12 +286,58 @@ var addrs = []string{"10.0.0.1:5001", "10.0.0.2:5001", "10.0.0.3:5001"}
 var txAddrs = []string{"10.0.1.1:5001", "10.0.1.2:5002", "10.0.1.3:5003", "10.0.1.4:5004"}
 
 // global registration timeline of a batch
+// genTimeline: every timeline starts by populating the registered set, contains one phase in which
+// the set is EMPTY (the last registration disappears while subscribers are reading) and re-populates
+// it afterwards; the remaining steps are free.
 func genTimeline(r *hx.Rng, n int) []step {
 	reg := map[string]bool{}
 	tx := map[string]bool{}
 	tl := make([]step, n)
+	viaTxn := r.Chance(65)
+	empty := r.Range(1, n-2) // step at which the set becomes empty; step empty+1 re-populates
 	for i := range tl {
-		if r.Chance(45) {
+		switch {
+		case i == 0 && viaTxn:
+			tl[i].Txn = []txop{{Put: txAddrs[0]}, {Put: txAddrs[1]}}
+			tx[txAddrs[0]], tx[txAddrs[1]] = true, true
+			continue
+		case i == 0:
+			tl[i].Reg = addrs[0]
+			reg[addrs[0]] = true
+			continue
+		case i < empty && !viaTxn: // keep a single registration so that one deregistration empties the set
+			continue
+		case i == empty && len(reg) == 0:
+			ops := []txop{}
+			for _, a := range txAddrs {
+				if tx[a] {
+					ops = append(ops, txop{Del: a})
+					delete(tx, a)
+				}
+			}
+			if len(ops) == 1 {
+				ops = append(ops, txop{Del: txAddrs[3]})
+			}
+			tl[i].Txn = ops
+			continue
+		case i == empty:
+			for a := range reg { // exactly one entry
+				tl[i].Dereg = a
+			}
+			reg = map[string]bool{}
+			continue
+		case i == empty+1 && viaTxn:
+			tl[i].Txn = []txop{{Put: txAddrs[2]}, {Put: txAddrs[0]}}
+			tx[txAddrs[2]], tx[txAddrs[0]] = true, true
+			continue
+		case i == empty+1:
+			tl[i].Reg = addrs[1]
+			reg[addrs[1]] = true
+			continue
+		case i < empty && len(reg) > 0: // txn timelines never register through RegisterService before the empty phase
+			continue
+		}
+		if r.Chance(45) || (viaTxn && i < empty) {
 			// one transaction with 2-4 writes on distinct keys; the last one is often a no-op (re-put of a
 			// present address, delete of an absent one) after an earlier write that changes the set
 			perm := append([]string{}, txAddrs...)
@@ -406,6 +452,24 @@ func corpusBatch() []*kase {
 	}
 }
 
+// fixed batch: the registered set becomes empty while subscribers are reading, then is re-populated
+func corpusEmptyBatch() []*kase {
+	a, b := addrs[0], addrs[1]
+	tl := []step{{Reg: a}, {Reg: b}, {Dereg: a}, {Dereg: b}, {Reg: a}}
+	mk := func(id string, ops ...step) *kase {
+		st := append([]step{}, tl...)
+		for i := range ops {
+			st[i].Op, st[i].Sid, st[i].Mode = ops[i].Op, ops[i].Sid, ops[i].Mode
+		}
+		return &kase{ID: id, Steps: st}
+	}
+	return []*kase{
+		mk("c-empty-set-reader", step{Op: "sub", Sid: 1, Mode: "reader"}),
+		mk("c-empty-set-late-reader", step{}, step{Op: "sub", Sid: 1, Mode: "reader"}, step{}, step{Op: "sub", Sid: 2, Mode: "reader"}),
+		mk("c-empty-set-sub-while-empty", step{}, step{}, step{}, step{Op: "sub", Sid: 1, Mode: "reader"}, step{}),
+	}
+}
+
 // second fixed batch: transactions whose last write is a no-op after a changing write
 func corpusTxnBatch() []*kase {
 	a, b, c := txAddrs[0], txAddrs[1], txAddrs[2]
@@ -470,6 +534,7 @@ func TestGen(t *testing.T) {
 	n := hx.EnvInt("VERIF_CASES", 30)
 	emit(corpusBatch())
 	emit(corpusTxnBatch())
+	emit(corpusEmptyBatch())
 	batch := hx.EnvInt("VERIF_HELIUM_BATCH", 24)
 	for bi := 0; out.N < n; bi++ {
 		nsteps := r.Range(4, 6)
